@@ -114,6 +114,12 @@ def check(ctx):
                 stores = [e for e in p.walk() if e.kind == "SETATTR" and e.a["obj"] == SELF]
                 ctx.ob("G-STORE", "%s stores the accepted value" % name, bool(stores), where=w, function=ent.func.qual,
                        construct="%s/store" % ent.func.qual, nontrivial=False, msg="%s accepts without storing anything" % name)
+                # ... every accepted argument, not just one of them (a setter that drops its second argument keeps the old setting)
+                for prm in params:
+                    kept = any(("param", prm) == sub for e in stores for sub in subterms(e.a["val"]))
+                    ctx.ob("G-STORE", "%s stores its argument %s" % (name, prm), kept, where=w, function=ent.func.qual,
+                           construct="%s/store/%s" % (ent.func.qual, prm),
+                           msg="%s accepts %s but stores it nowhere: the setting keeps its previous value" % (name, prm))
             for p in reject:
                 c = exc_class(p.exit[1])
                 eff = [e for e in p.walk() if is_effect(e)]
@@ -179,6 +185,23 @@ def check(ctx):
                        not eff, where=where(eff[0]) if eff else loc, function=eff[0].func if eff else ent.func.qual,
                        construct="%s.%s/atomic/%s" % (cls.qual, op, eff[0].kind if eff else ""),
                        msg="rejecting path of %s() has effect %s" % (op, eff[0].brief() if eff else ""))
+            if op in ("subscribe", "unsubscribe"):
+                # "a topic argument of the wrong type" is refused: every accepting path has established, by a positive isinstance test,
+                # that the argument is one of the accepted kinds (a path on which every such test failed must not accept)
+                tparam = [q for q in ent.func.params if q != "self"][0] if len(ent.func.params) > 1 else None
+                for p, d, c, how in accept:
+                    typed = False
+                    for cnd in p.conds:
+                        t, pol = cnd.term, cnd.pol
+                        while isinstance(t, tuple) and t and t[0] == "not":
+                            t, pol = t[1], not pol
+                        if pol and isinstance(t, tuple) and t[:2] == ("call", ("builtin", "isinstance")) and len(t[2]) == 2 \
+                                and mentions(t[2][0], ("param", tparam)):
+                            typed = True
+                    ctx.ob("G-TYPE", "%s.%s accepts only a topic argument of a tested type" % (cls_short(cls.qual), op), typed, where=w,
+                           function=ent.func.qual, construct="%s.%s/untyped-accept" % (cls.qual, op),
+                           msg="%s() has an accepting path on which no isinstance test of the topic argument succeeded: an argument of the "
+                               "wrong type (a set, a dict, a tuple of names) is encoded and sent" % op)
             if op == "connect":
                 _connect_rules(ctx, cls, ent, accept, reject, w)
             elif op == "publish":
